@@ -2,3 +2,7 @@ pub mod scan;
 pub mod frame;
 pub mod events;
 pub mod compose;
+pub mod xlate;
+pub mod safety;
+pub mod dump;
+pub mod layouts;
